@@ -424,6 +424,57 @@ func scenarioLogin(c *vrun.Ctx) {
 			}
 		}
 		setUserHash(cheapHash(password))
+		// the decision depends on this request's body alone: every history of login bodies up to
+		// depth 3 over complete, partial, empty and malformed documents; a login succeeds iff its own
+		// body carries the user name and the right password, whatever was sent before
+		type lb struct {
+			body string
+			ok   bool
+		}
+		bodies := []lb{
+			{`{"username":"admin","password":"` + password + `"}`, true},
+			{`{"username":"admin","password":"wrong"}`, false},
+			{`{"username":"admin"}`, false},
+			{`{"password":"` + password + `"}`, false},
+			{`{}`, false},
+			{`null`, false},
+			{`{"username":"admin","password":null}`, false},
+			{`{"username":"admin","password":`, false},
+		}
+		var walk func(hist []int)
+		walk = func(hist []int) {
+			if len(hist) > 0 {
+				c.Case()
+				resetSessions()
+				var names []string
+				for i, bi := range hist {
+					r := s.do("POST", "/api/auth/login", "-", bodies[bi].body, nil)
+					names = append(names, bodies[bi].body)
+					ok := false
+					for _, sc := range r.Header.Values("Set-Cookie") {
+						if strings.HasPrefix(sc, "reservoir.sid=") && !strings.HasPrefix(sc, "reservoir.sid=;") {
+							ok = true
+						}
+					}
+					if r.Panic != "" || r.Dropped {
+						c.Violation("C16/api/login-panic", fmt.Sprintf("login history %v: request %d panics / gets no response: %s", names, i+1, r.Panic), nil)
+					}
+					if ok != bodies[bi].ok {
+						c.Violation("C20/login/decision-depends-on-history", fmt.Sprintf("login history %v: request %d success=%v (status %d), its own body warrants %v", names, i+1, ok, r.Status, bodies[bi].ok), nil)
+					}
+					if i == len(hist)-1 {
+						c.Outcome(fmt.Sprintf("hist/%v/%d", ok, r.Status))
+					}
+				}
+			}
+			if len(hist) == 3 {
+				return
+			}
+			for i := range bodies {
+				walk(append(append([]int{}, hist...), i))
+			}
+		}
+		walk(nil)
 	})
 	if ex.Status != "complete" {
 		c.Violation("C16/api/abort/"+ex.Status, ex.Status+": "+ex.Detail+" "+ex.PanicVal, nil)
